@@ -785,7 +785,7 @@ func closedOnPaths(p *Prog, fn *ssa.Function, sites []Site, field string, strict
 		}
 		// error exits of earlier fallible steps are not "successful closes"
 		if k, _ := returnErrOperand(rs.Instr.(*ssa.Return), idx); k != "nil" {
-			if !strict {
+			if !strict && !guardAfterStateChange(fn, rs) {
 				continue
 			}
 			behindFallible := false
@@ -805,7 +805,10 @@ func closedOnPaths(p *Prog, fn *ssa.Function, sites []Site, field string, strict
 					behindFallible = true
 				}
 			})
-			if !behindFallible {
+			if !behindFallible && !guardAfterStateChange(fn, rs) {
+				continue
+			}
+			if !strict && behindFallible {
 				continue
 			}
 		}
@@ -813,6 +816,32 @@ func closedOnPaths(p *Prog, fn *ssa.Function, sites []Site, field string, strict
 		return false
 	}
 	return true
+}
+
+// guardAfterStateChange: the exit rs of a Close lies behind a store into a flag of the receiver (closed = true, open =
+// false): the owner then counts as closed although this exit left the handle open, and a later Close takes the same exit.
+func guardAfterStateChange(fn *ssa.Function, rs Site) bool {
+	if len(fn.Params) == 0 {
+		return false
+	}
+	hit := false
+	eachInstr(fn, func(s Site) {
+		st, ok := s.Instr.(*ssa.Store)
+		if !ok || hit {
+			return
+		}
+		fa, ok := st.Addr.(*ssa.FieldAddr)
+		if !ok || paramOrigin(fa.X) != fn.Params[0] && fa.X != ssa.Value(fn.Params[0]) {
+			return
+		}
+		if b, isB := st.Val.Type().Underlying().(*types.Basic); !isB || b.Kind() != types.Bool {
+			return
+		}
+		if reachableFromSite(s, rs) {
+			hit = true
+		}
+	})
+	return hit
 }
 
 // coInitialised: fields f and g of owner type t are stored by one and the same function (e.g. both set up in Open).
